@@ -203,6 +203,7 @@ let do_schema name sx =
   let p = (match mx_gen_all s with GOk p -> Some p | GError _ -> None) in
   Hashtbl.replace schemas name (s, p);
   (match mx_gen_all s with GOk _ -> "ok" | GError r -> "generror:" ^ string_of_int (let rec n = function O -> 0 | S k -> 1 + n k in n r))
+  ^ "\ttdec=" ^ (if mx_tdec_applies s then "yes" else "no")
 
 (* msg: typeref gotype val implbytes flags detail refbytes
    -> pico=<model Marshal bytes|PANIC> ref=<ref_encode (norm v)> rt=<model unmarshal of model bytes> refdec=<ref_decode of model bytes> norm=<norm v> *)
